@@ -279,7 +279,7 @@ pub fn reachable_from(p: &Program, root: usize) -> Vec<bool> {
                     flags[*h] = *on;
                 }
                 tracked_at_use[i] = args.iter().map(|a| flags[*a]).collect();
-                let mut f = args.iter().any(|a| flags[*a]);
+                let mut f = args.iter().any(|a| flags[*a]) || kind.forces_tracking();
                 if kind.is_alias() {
                     f = flags[args[0]];
                 }
@@ -367,7 +367,7 @@ pub fn flags_at_use(p: &Program) -> Vec<Vec<bool>> {
                     flags[*h] = *on;
                 }
                 out[i] = args.iter().map(|a| flags[*a]).collect();
-                let mut f = args.iter().any(|a| flags[*a]);
+                let mut f = args.iter().any(|a| flags[*a]) || kind.forces_tracking();
                 if kind.is_alias() {
                     f = flags[args[0]];
                 }
